@@ -125,7 +125,7 @@ theorem sort_files_perm_sorted_stable (fnm : Fnm) (rules : List SortRule) (files
 resolution with its link counts, `alloc_inode_num_dfs`, `reorder_hard_links`, `file_list_dfs` — gives the same result
 for every order of the `links_unresolved` list, the one piece of state next to the tree that records the order in which
 entries arrived.  Hypothesis `FlatLinks`: every pending link names an existing node that is neither a directory nor a
-link itself — what the hard-link filter hands out (it only ever records primary names). -/
+link itself.  `pack_dir_links_order_free` below discharges it for what a `--pack-dir` scan produces. -/
 theorem numbering_deterministic {links₁ links₂ : List Path} (hp : links₁.Perm links₂) (tree : TNode)
     (hflat : FlatLinks tree links₁) : postProcess tree links₁ = postProcess tree links₂ :=
   postProcess_perm hp tree hflat
@@ -134,8 +134,8 @@ theorem numbering_deterministic {links₁ links₂ : List Path} (hp : links₁.P
 `links_unresolved` — for every forest, every enumeration, every option set, with or without the `qsort` in the native
 iterator — post-processing gives the same tree, inode numbers and file list for **every** order of that list.  (Every
 pending link points at the path the hard-link filter recorded for the first name of the file; at that path there is the
-node made from that first name, or — when that name was filtered out — nothing, in which case `fstree_post_process`
-fails for every order: `Sqfs.FsTree.scanInto_links`, `postProcess_perm'`.)  So the only way the readdir order can reach
+node made from that first name, or — when `scan_directory` dropped that name because its parent directory is not in the
+tree — nothing, in which case `fstree_post_process` fails for every order: `Sqfs.FsTree.scanInto_links`, `postProcess_perm'`.)  So the only way the readdir order can reach
 inode numbers and file list is through the *tree* (which name of a file became the real one) — the part `read_names`
 fixes. -/
 theorem pack_dir_links_order_free {sorted : Bool} {d : Defaults} {cfg : Cfg} {fnm : Fnm} {rootDev : Nat} {e : List HNode}
@@ -226,11 +226,12 @@ example : wcfg.pfx = [] ∧ WFList [fa, fb, fc, fe'] ∧
     (scanInto true wd wcfg (fun _ _ _ => true) 1 [fa, fb, fc, fe'] (initRoot wd) []).isSome = true := by
   refine ⟨rfl, ?_, by decide⟩
   simp [WFList, WFNode, HNode.name, fa, fb, fc, fe']
-/-- … and its "dangling" branch is real: with the first name `a` filtered out by the name pattern the links `c`, `e` point
-at nothing and post-processing fails (for every order) -/
-example : (scanInto true wd { wcfg with pattern := some [] } (fun _ s _ => s != [0x61]) 1 [fa, fb, fc, fe'] (initRoot wd) []).isSome
-      = true ∧
-    (packDir true wd { wcfg with pattern := some [] } (fun _ s _ => s != [0x61]) 1 [fa, fb, fc, fe']).isNone = true := by
+/-- … and its "dangling" branch is real: with directories filtered out (`DIR_SCAN_NO_DIR`, recursion goes on) `d/a` passes
+the filters and is remembered by the hard-link filter, but `scan_directory` drops it (its parent is not in the tree); the
+second name `e` then points at nothing and post-processing fails (for every order) -/
+example : (scanInto true wd { wcfg with flags := wcfg.flags ||| Consts.dirScanNoDir } (fun _ _ _ => true) 1 [dd [fa], fe']
+        (initRoot wd) []).isSome = true ∧
+    (packDir true wd { wcfg with flags := wcfg.flags ||| Consts.dirScanNoDir } (fun _ _ _ => true) 1 [dd [fa], fe']).isNone = true := by
   decide
 
 /-- the scan of the witness forest succeeds (hypothesis of `scan_tree_sorted`), with either iterator -/
